@@ -63,8 +63,11 @@ def explore(ad, max_depth=8, max_nodes=200000, audit_rng=None, audit_pairs=25):
         i += 1
     for k in range(1, len(nodes)):
         edges[k]["cf"], edges[k]["cl"] = nodes[k]["cf"], nodes[k]["cl"]
-    # dedup audit: merged states must be observationally equal one step ahead
+    # dedup audit: merged states must be observationally equal one step ahead.  A discrepancy means the projection hides
+    # state that matters (typically only on defective code); the diverging continuations are returned as witness paths so
+    # that they are judged too instead of being lost to the merge.
     audit_fail = None
+    witnesses = []
     if audit_rng is not None and merged:
         audit_rng.shuffle(merged)
         for kept, path in merged[:audit_pairs]:
@@ -82,13 +85,14 @@ def explore(ad, max_depth=8, max_nodes=200000, audit_rng=None, audit_pairs=25):
                     ad.apply(w2, x)
                 o2, k2 = ad.apply(w2, a), key(w2)
                 if canon(norm(o1)) != canon(norm(o2)) or k1 != k2:
-                    audit_fail = {"kept": nodes[kept]["path"], "merged": path, "act": a, "obs": [o1, o2], "keys": [k1, k2]}
-                    break
-            if audit_fail:
-                break
+                    if audit_fail is None:
+                        audit_fail = {"kept": nodes[kept]["path"], "merged": path, "act": a, "obs": [o1, o2], "keys": [k1, k2]}
+                    if len(witnesses) < 60:
+                        witnesses.append(path + [a])
+                        witnesses.append(nodes[kept]["path"] + [a])
     header = {"cf": nodes[0]["cf"], "cl": nodes[0]["cl"], "root": rootproj}
     return {"header": header, "edges": edges[1:], "states": len(seen), "truncated": truncated,
-            "audit_fail": audit_fail, "paths": [n["path"] for n in nodes]}
+            "audit_fail": audit_fail, "witnesses": witnesses, "paths": [n["path"] for n in nodes]}
 
 
 def chains_to_tree(chains):
